@@ -39,6 +39,9 @@ structure Inv (s : St) : Prop where
   past : ∀ k, k < s.round → (s.entered k = s.need k ∧ 0 < s.need k)
   relRound : ∀ a, Released (s.pc a) → (s.roundOf a < s.round ∨ (s.roundOf a = s.round ∧ s.counter = s.nw))
   csRound : ∀ a, (s.pc a = .csWait ∨ s.pc a = .csLast) → s.roundOf a = s.round
+  sampLe : ∀ a, s.samp a ≤ s.fval
+  wnyCS : s.wny = true → (s.lock ≠ none ∧ ∀ b, s.lock = some b → s.pc b = .csLast)
+  wokenLt : ∀ a, s.kind a ≠ .ult → (s.pc a = .woken ∨ s.pc a = .reR) → (s.samp a < s.fval ∨ s.wny = true)
 
 theorem inv_init (k : Actor → Kind) (n : Nat) (hn : 0 < n) : Inv (init k n) := by
   constructor <;> simp [init, HoldsLock, InQ, Released, hn]
@@ -48,6 +51,7 @@ macro "inv_tac" h:ident : tactic => `(tactic|
    have := ($h).cntIn; have := ($h).cntLast; have := ($h).nodup; have := ($h).inQ
    have := ($h).qRound; have := ($h).taskPc; have := ($h).ultPc; have := ($h).entNow
    have := ($h).entFut; have := ($h).needNow; have := ($h).past; have := ($h).relRound; have := ($h).csRound
+   have := ($h).sampLe; have := ($h).wnyCS; have := ($h).wokenLt
    try simp only [setPc, enter] at *
    grind [upd, HoldsLock, InQ, Released]))
 
@@ -74,6 +78,14 @@ theorem inv_stepWake (s s' : St) (a n : Actor) (h : Inv s) (hs : stepWake s a n 
 
 theorem inv_stepReinit (s s' : St) (n : Nat) (rc : Rc) (h : Inv s) (hs : stepReinit s n rc = some s') : Inv s' := by
   unfold stepReinit at hs
+  (repeat' (split at hs)) <;> close_tac h hs
+
+theorem inv_stepFsamp (s s' : St) (a : Actor) (v : Nat) (h : Inv s) (hs : stepFsamp s a v = some s') : Inv s' := by
+  unfold stepFsamp at hs
+  (repeat' (split at hs)) <;> close_tac h hs
+
+theorem inv_stepFbump (s s' : St) (a : Actor) (v : Nat) (h : Inv s) (hs : stepFbump s a v = some s') : Inv s' := by
+  unfold stepFbump at hs
   (repeat' (split at hs)) <;> close_tac h hs
 
 end ArgoVerif.Model.Barrier
